@@ -1,26 +1,38 @@
 (* C18 driver.
-   input : <lb> <n> <nw> <w_0> .. <w_nw-1> <event>*      lb in rr rand la wrr nginx wrand wla
+   input : <lb> <n> <nw> <w_0> .. <w_nw-1> [@<x,y,..>] <event>*     lb in rr rand la wrr nginx wrand wla
+           @<x,y,..> = start from this state (the balancer's fields in the order of m_obs) instead
+                       of the freshly constructed one
            event = S<chosen>  (a call starts; <chosen> is the index the implementation picked)
                  | F<k><o>    (call number k returns from next with outcome o in O E P)
+                 | C<n>       (the client's URL list now has n entries)
    output: CTOR-PANIC | CTOR-FUEL, or one token per event until the first failure:
            S:<model pick>:<admissible set a,b,..>:<state x,y,..>:<kind>/<arg of the rand call>
-           F:<state>   PANIC  FUEL  BADSCRIPT
-   second form: lb prefixed by "x:" and start events R<r> carrying the rand value itself (Balance.run);
-   output: P:<picks a,b,..> or PANIC FUEL BADSCRIPT *)
+           F:<state>   C:<state>   PANIC  FUEL  BADSCRIPT
+   second form: lb prefixed by "x:" and start events R<r> carrying the rand value itself
+   (Balance.run_cfg); output: P:<picks a,b,..> or PANIC FUEL BADSCRIPT *)
 open Common
 
 let outcome_of = function
   | 'O' -> Balance.OOk | 'E' -> Balance.OErr | 'P' -> Balance.OPanic
   | c -> failwith (Printf.sprintf "outcome %c" c)
 
+let tail t = String.sub t 1 (String.length t - 1)
+
 let event_of (t : string) : Balance.oevent =
   let n = String.length t in
-  if n >= 2 && t.[0] = 'S' then Balance.OStart (nat_of_int (int_of_string (String.sub t 1 (n - 1))))
+  if n >= 2 && t.[0] = 'S' then Balance.OStart (nat_of_int (int_of_string (tail t)))
+  else if n >= 2 && t.[0] = 'C' then Balance.OConfig (nat_of_int (int_of_string (tail t)))
   else if n >= 3 && t.[0] = 'F' then
     Balance.OFinish (nat_of_int (int_of_string (String.sub t 1 (n - 2))), outcome_of t.[n - 1])
   else failwith ("c18: bad event " ^ t)
 
-let rec list_of_coq = function [] -> [] | x :: r -> x :: list_of_coq r
+let revent_of (t : string) : Balance.cevent =
+  let n = String.length t in
+  if n >= 2 && t.[0] = 'R' then Balance.CEv (Balance.EStart (z_of_string (tail t)))
+  else if n >= 2 && t.[0] = 'C' then Balance.CConfig (nat_of_int (int_of_string (tail t)))
+  else if n >= 3 && t.[0] = 'F' then
+    Balance.CEv (Balance.EFinish (nat_of_int (int_of_string (String.sub t 1 (n - 2))), outcome_of t.[n - 1]))
+  else failwith ("c18: bad event " ^ t)
 
 let csv f l = String.concat "," (Stdlib.List.map f l)
 
@@ -37,52 +49,66 @@ let show (o : Balance.step_obs Balance.res) : string =
   | Balance.OutOfFuel -> "FUEL"
   | Balance.BadScript -> "BADSCRIPT"
 
-let revent_of (t : string) : Balance.event =
-  let n = String.length t in
-  if n >= 2 && t.[0] = 'R' then Balance.EStart (z_of_string (String.sub t 1 (n - 1)))
-  else if n >= 3 && t.[0] = 'F' then
-    Balance.EFinish (nat_of_int (int_of_string (String.sub t 1 (n - 2))), outcome_of t.[n - 1])
-  else failwith ("c18: bad event " ^ t)
-
-let go exact m s0 (toks : string list) =
+let go exact mk n s0 (toks : string list) =
   if exact then
-    (match Balance.run m s0 [] (Stdlib.List.map revent_of toks) with
-     | Balance.Ok (ps, _) -> "P:" ^ csv (fun k -> string_of_int (int_of_nat k)) ps
+    (match Balance.run_cfg mk n s0 [] (Stdlib.List.map revent_of toks) with
+     | Balance.Ok (ps, _) -> "P:" ^ csv (fun p -> string_of_int (int_of_nat (fst p))) ps
      | Balance.Panic -> "PANIC" | Balance.OutOfFuel -> "FUEL" | Balance.BadScript -> "BADSCRIPT")
-  else String.concat " " (Stdlib.List.map show (Balance.run_obs m s0 [] (Stdlib.List.map event_of toks)))
+  else String.concat " " (Stdlib.List.map show (Balance.run_obs mk n s0 [] (Stdlib.List.map event_of toks)))
 
 let rec take k l = if k = 0 then ([], l) else match l with
   | x :: r -> let (a, b) = take (k - 1) r in (x :: a, b)
   | [] -> failwith "c18: short line"
 
+let zs_of (t : string) : BinNums.coq_Z list =
+  Stdlib.List.map z_of_string (Stdlib.List.filter (fun x -> x <> "") (String.split_on_char ',' t))
+
 let run line =
   match split_ws line with
   | lb :: n :: nw :: rest ->
-    let n = nat_of_int (int_of_string n) in
+    let ni = int_of_string n in
+    let n = nat_of_int ni in
     let (ws, evs) = take (int_of_string nw) rest in
     let ws = Stdlib.List.map z_of_string ws in
+    let k = Stdlib.List.length ws in
+    let (init, evs) = match evs with
+      | t :: r when String.length t >= 1 && t.[0] = '@' -> (Some (zs_of (tail t)), r)
+      | _ -> (None, evs) in
     let exact = String.length lb > 2 && String.sub lb 0 2 = "x:" in
     let lb = if exact then String.sub lb 2 (String.length lb - 2) else lb in
-    let go m s0 evs = go exact m s0 evs in
+    let go mk s0 = go exact mk n s0 evs in
+    let split st = take k st in
     (match lb with
-     | "rr" -> go (Balance.rr_machine n) Balance.rr_init evs
-     | "rand" -> go (Balance.rnd_machine n) () evs
-     | "la" -> go (Balance.la_machine n) [] evs
+     | "rr" -> go Balance.rr_machine (match init with Some [x] -> x | Some _ -> failwith "c18: rr state" | None -> Balance.rr_init)
+     | "rand" -> go Balance.rnd_machine ()
+     | "la" -> go Balance.la_machine (match init with Some a -> a | None -> [])
      | "wrr" ->
        (match Balance.wrr_new ws with
-        | Balance.Ok (c, s0) -> go (Balance.wrr_machine c) s0 evs
+        | Balance.Ok (c, s0) ->
+          let s0 = (match init with
+              | Some [i; cw] -> { Balance.wr_index = i; Balance.wr_cw = cw }
+              | Some _ -> failwith "c18: wrr state" | None -> s0) in
+          go (fun _ -> Balance.wrr_machine c) s0
         | Balance.OutOfFuel -> "CTOR-FUEL" | _ -> "CTOR-PANIC")
      | "nginx" ->
        (match Balance.ng_new ws with
-        | Balance.Ok s0 -> go (Balance.ng_machine ws) s0 evs
+        | Balance.Ok s0 ->
+          let s0 = (match init with
+              | Some st -> let (e, c) = split st in { Balance.ng_eff = e; Balance.ng_cur = c }
+              | None -> s0) in
+          go (fun _ -> Balance.ng_machine ws) s0
         | _ -> "CTOR-PANIC")
      | "wrand" ->
        (match Balance.mk_weighted ws with
-        | Balance.Ok w -> go (Balance.wrand_machine w) w evs
+        | Balance.Ok w -> go (fun _ -> Balance.wrand_machine w) (match init with Some e -> e | None -> w)
         | _ -> "CTOR-PANIC")
      | "wla" ->
        (match Balance.wla_new ws with
-        | Balance.Ok s0 -> go (Balance.wla_machine ws) s0 evs
+        | Balance.Ok s0 ->
+          let s0 = (match init with
+              | Some st -> let (a, e) = split st in { Balance.wl_act = a; Balance.wl_eff = e }
+              | None -> s0) in
+          go (fun _ -> Balance.wla_machine ws) s0
         | _ -> "CTOR-PANIC")
      | _ -> failwith ("c18: unknown balancer " ^ lb))
   | _ -> failwith "c18: bad line"
